@@ -270,6 +270,10 @@ def run(ctx):
         if verd[i][0] != "ACCEPT":
             ctx.violation("C11/trace/rejected", f"event {verd[i][2]} {verd[i][3]} not allowed by the model; model out {verd[i][4][:300]}",
                           {"streams": [[p["bytes"] for p in gg["stream"]] for gg in case], "opts": [gg["opts"] for gg in case], "events": ev})
+    # ---- segment combining across interleaved generators (Segments o Decode o Generator): the per-APID segment table
+    # must belong to one generator; a generator suspended in the middle of a group must not see another one's segments
+    seg_section(ctx, d, dobj, rng, q)
+
     # ---- parsing never modifies the definition
     xml_after = etree.tostring(dobj.to_xml_tree())
     proj_after = repr(sorted(dobj.containers)) + repr([c.inheritors for c in dobj.containers.values()])
@@ -277,6 +281,137 @@ def run(ctx):
         ctx.violation("C11/definition-modified", "the definition's XML / inheritor lists changed while parsing", {})
     ctx.exhaustive = True
     ctx.sample({"direction": "code->spec", "generators": len(recs[0][0]), "events": recs[0][1][:10]}, limit=4)
+
+
+def seg_section(ctx, d, dobj, rng, q):
+    from harness.props import c12
+    OPT = {"parse_bad": True, "yield_unrec": False, "hdr_only": False}
+    SEG_APID, K = 2, 0
+
+    def mk_stream(seq0, gid):
+        """FIRST .. LAST groups of APID 2 with unsegmented APID-1 packets inside the groups (so that next() returns mid-group)"""
+        raw = []
+        seq = seq0
+        for _ in range(rng.randint(1, 3)):
+            n = rng.randint(2, 4)
+            for j in range(n):
+                flag = 1 if j == 0 else (2 if j == n - 1 else 0)
+                if rng.random() < 0.15 and j > 0:
+                    seq = (seq + 3) % 16384          # a gap: the group must be rejected
+                raw.append({"apid": SEG_APID, "flag": flag, "seq": seq, "bytes": defs.mk_packet(bytes([0xC0 | gid, len(raw), rng.getrandbits(8)]), apid=SEG_APID, flags=flag, seq=seq)})
+                seq = (seq + 1) % 16384
+                if j < n - 1 and rng.random() < 0.8:
+                    raw.append({"apid": 1, "flag": 3, "seq": 0, "bytes": defs.mk_packet(bytes([gid, len(raw)]), apid=1, seq=len(raw))})
+        return raw
+    cases = []
+    for t in range(12 if q else 120):
+        cases.append([mk_stream(rng.choice([0, 16382, 77]), g) for g in range(2)])
+    # model outputs of the reassembly (Segments.tla, via Trace_Segments with a placeholder observation)
+    recs = []
+    for ci, case in enumerate(cases):
+        for gi, raw in enumerate(case):
+            recs.append({"tid": len(recs) + 1, "pk": [[r["apid"], r["flag"], r["seq"]] for r in raw], "outs": [[0]], "gaps": 0, "nostarts": 0, "k": K})
+    path = os.path.join(ctx.work, "c11-seg.ndjson")
+    core.write_ndjson(path, recs)
+    tcfg = c12.cfg(ctx, "c11-seg.cfg", None, 100000, [1, SEG_APID], [0], ["TraceInv"], init=("TraceInit", "TraceNext"))
+    rt = ctx.tlc_expect_ok("Trace_Segments", tcfg, workers=1, env={"TRACE_FILE": path}, tag="segments-model-outputs", count=False)
+    model = {}
+    for line in rt.printed:
+        v = core.parse_printed(line)
+        model[v[1]] = json.loads(v[3])["model"]
+    if len(model) != len(recs):
+        raise core.MachineryError("segment model outputs missing")
+    # effective packets per generator, their decode end states
+    eff_cases = []
+    pool, pool_idx = [], {}
+    tid = 0
+    for case in cases:
+        gens = []
+        for raw in case:
+            tid += 1
+            eff = []
+            for ids in model[tid]:
+                b = bytes(raw[ids[0] - 1]["bytes"])
+                for i in ids[1:]:
+                    b += bytes(raw[i - 1]["bytes"])[6 + K:]
+                if b not in pool_idx:
+                    pool_idx[b] = len(pool)
+                    pool.append(list(b))
+                eff.append(b)
+            gens.append({"raw": raw, "eff": eff})
+        eff_cases.append(gens)
+    col = []
+    dc.run_groups(ctx, "C11", [{"defn": d, "pkts": pool, "route": ("xml", "prefix", False, False), "label": "segment-pool"}], "segpool", jobs=4,
+                  gen_level=False, collect=col)
+    st = {}
+    for ln, pi, status, exact in col:
+        st[pi] = {"status": status, "exact": bool(exact), "items": ln["obs"][pi]["items"]}
+    use = [(ci, g) for ci, g in enumerate(eff_cases) if all(st[pool_idx[b]]["status"] in ("ok", "unrec") for gg in g for b in gg["eff"])]
+    gcases = [{"gens": [{"opts": OPT, "pk": [{"status": st[pool_idx[b]]["status"], "exact": st[pool_idx[b]]["exact"]} for b in gg["eff"]]} for gg in g], "ev": []}
+              for ci, g in use]
+    if not gcases:
+        ctx.vacuity("no segmented case usable")
+        return
+    gpath = os.path.join(ctx.work, "c11-seg-gen.ndjson")
+    core.write_ndjson(gpath, gcases)
+    dump = os.path.join(ctx.work, "c11-seg-graph")
+    ctx.tlc_expect_ok("Generator", "MC_Generator.cfg", env={"TRACE_FILE": gpath}, dump=dump, tag="segmented-interleavings", workers=8)
+    g = load_dot(dump + ".dot")
+    paths, ncov = edge_cover(g, rng=rng)
+    os.unlink(dump + ".dot")
+    ctx.extra["segmented_graph"] = {"nodes": len(g.state_text), "edges": g.nedges, "paths": len(paths)}
+    ncomb = 0
+    for path_ in paths:
+        s0 = g.state(path_[0])
+        ci, gens_ = use[s0["cid"] - 1]
+        real = []
+        with warnings.catch_warnings():
+            warnings.simplefilter("ignore")
+            for gg in gens_:
+                data = b"".join(bytes(r["bytes"]) for r in gg["raw"])
+                real.append(dobj.packet_generator(io.BytesIO(data), combine_segmented_packets=True, secondary_header_bytes=K))
+        prev = s0
+        sched = []
+        prob = None
+        for a, n in path_[1:]:
+            stt = g.state(n)
+            gi = next(i for i in range(len(gens_)) if _fn(stt["idx"], i) != _fn(prev["idx"], i) or _fn(stt["done"], i) != _fn(prev["done"], i))
+            sched.append(gi)
+            with warnings.catch_warnings():
+                warnings.simplefilter("ignore")
+                try:
+                    item = next(real[gi])
+                    got = "item"
+                except StopIteration:
+                    got = "stop"
+                except Exception as e:  # noqa: BLE001
+                    got = f"raise:{type(e).__name__}"
+            grew = len(_fn(stt["out"], gi)) > len(_fn(prev["out"], gi))
+            if grew:
+                exp = _fn(stt["out"], gi)[-1]
+                want = gens_[gi]["eff"][exp["id"] - 1]
+                if got != "item":
+                    prob = f"next() on generator {gi} gave {got}; model yields effective packet {exp['id']}"
+                elif bytes(item.raw_data) != want:
+                    prob = (f"generator {gi}: yielded raw data {bytes(item.raw_data).hex()} is not the reassembled packet the model expects "
+                            f"({want.hex()}): segments of another generator or of a closed group were used")
+                elif typed_items(d, item) != st[pool_idx[want]]["items"]:
+                    prob = "items differ from parsing the reassembled packet on its own"
+                if len(want) > 9:
+                    ncomb += 1
+            elif got != "stop":
+                prob = f"next() on generator {gi} gave {got}; model: StopIteration"
+            if prob:
+                break
+            prev = stt
+        ctx.traces += 1
+        ctx.count(("A-seg", ci, tuple(sched)))
+        if prob:
+            ctx.violation("C11/segmented/" + ("cross-talk" if "not the reassembled" in prob else "mismatch"), prob,
+                          {"streams": [[list(r["bytes"]) for r in gg["raw"]] for gg in gens_], "schedule": sched})
+    ctx.extra["segmented_items_compared"] = ncomb
+    if ncomb == 0:
+        ctx.vacuity("no combined packet was compared in the segmented section")
 
 
 def _fn(v, i):
